@@ -1265,6 +1265,8 @@ var awkwardNames = []string{
 	"struct AwkK { int32 type; int32 func; bool range; int32 go; int32 select; int32 chan; int32 defer; int32 package; int32 var; int32 interface; }\nmessage AwkKM { 1 -> int32 type; 2 -> int32 func; }\n",
 	"struct AwkB { int32 len; int32 append; int32 make; int32 error; int32 nil; int32 iota; int32 bbp; int32 buf; int32 at; int32 iohelp; int32 err; int32 r; int32 w; int32 ln; int32 i; }\nunion AwkBU { 1 -> struct AwkBS { int32 buf; int32 at; } }\n",
 	"struct AwkC { int32 value; int32 Value; int32 VALUE; }\nstruct awkLower { int32 a; }\nstruct AwkLower { int32 b; }\nmessage AwkCM { 1 -> int32 x; 2 -> int32 X; }\n",
+	// a go_package hint in the importing file itself, with constants behind it
+	"const string go_package = \"example.com/sim/mainpkg\";\nconst int32 awkGpA = 7;\nconst string awkGpB = \"b\";\nconst uint8 awkGpC = 3;\nstruct AwkGp { int32 a; }\n",
 	"enum AwkE { size = 1; Size = 2; String = 3; }\nstruct AwkES { AwkE size; AwkE string_; }\nstruct Record { int32 a; }\nstruct Reader { Record record; }\nstruct NewAwkS { int32 a; }\nstruct MakeAwkS { NewAwkS newAwkS; }\n",
 }
 
